@@ -7,7 +7,7 @@
     same bytes as plain ones is xopen's and the compression libraries' business: exercised by the
     container x layout x cores matrix of the check, not modelled. *)
 From Coq Require Import ZArith List Bool.
-From CV Require Import Model.Base Model.Parser Model.Format Model.Pipeline Model.Paired Proofs.FormatProofs Proofs.PairedProofs.
+From CV Require Import Model.Base Model.Parser Model.Format Model.Pipeline Model.Paired Proofs.FormatProofs Proofs.PairedProofs Proofs.QualityBlind.
 Import ListNotations.
 Open Scope Z_scope.
 
@@ -37,6 +37,18 @@ Print Assumptions C19_fallback.
 Theorem C19_interleaved_layout : forall pairs : list (read * read), deinterleave (interleave pairs) = pairs.
 Proof. exact deinterleave_interleave. Qed.
 Print Assumptions C19_interleaved_layout.
+
+(** FASTA input gives the same names and sequences as FASTQ input when no quality-based option is
+    used (no -q, --nextseq-trim, --max-ee, --max-aer, fractional --max-n): the same fate, the same
+    matches, and the output read with its qualities dropped -- for every stage order, filter order,
+    option set and read *)
+Theorem C19_fasta_equals_fastq : forall order forder o r, no_quality_options o ->
+  let out := process_read order forder o r in
+  let out' := process_read order forder o (dq r) in
+  out_fate out' = out_fate out /\ out_read out' = dq (out_read out) /\ out_matches out' = out_matches out /\
+  out_is_rc out' = out_is_rc out /\ out_in_len out' = out_in_len out.
+Proof. exact quality_blind. Qed.
+Print Assumptions C19_fasta_equals_fastq.
 
 Example C19_nonvacuous :
   uncompressed_name ([111; 117; 116] ++ e_fasta) /\
